@@ -17,7 +17,8 @@ from harness.props import c01
 
 PROPERTY = "C15"
 ENGINE = "c01"
-REQUIRED_THEOREMS = ["backtick_verbatim", "whitespace_noop", "whitespace_flushes", "spans_ordered", "ws_insensitive", "positions_irrelevant"]
+REQUIRED_THEOREMS = ["backtick_verbatim", "whitespace_noop", "whitespace_flushes", "spans_ordered", "ws_insensitive", "positions_irrelevant",
+                     "span_delimits_text", "tokens_have_kinds", "quoted_verbatim", "brace_verbatim"]
 TRUSTED = list(c01.TRUSTED) + [
     "that two formattings of one Python fragment have the same ast.unparse normal form is CPython's (exercised, not proved)"
 ]
@@ -43,7 +44,7 @@ def rand_name(rng):
 def gen_pyexpr(rng, depth):
     r = rng.random()
     if depth <= 0 or r < 0.3:
-        return rng.choice([("n", "a"), ("n", "x1"), ("n", "b"), ("c", 1), ("c", 2.5), ("s", rng.choice(["q", "a)b", "(", "]}", "it's", '"', "{", "a b", ""]))])
+        return rng.choice([("n", "a"), ("n", "x1"), ("n", "b"), ("c", 1), ("c", 2.5), ("s", rng.choice(["q", "a)b", "(", "]}", "it's", '"', "{", "a b", "", "it's `50%`", "`x`", 'say "`q`" now', "`", "a `b", "'`a`'"]))])
     if r < 0.5:
         return ("call", rng.choice(["f", "np.log", "g"]), [gen_pyexpr(rng, depth - 1) for _ in range(rng.randint(0, 3))])
     if r < 0.7:
@@ -55,7 +56,15 @@ def gen_pyexpr(rng, depth):
     return ("dict", [(("s", rng.choice(["k", "}", ")"])), gen_pyexpr(rng, depth - 1)) for _ in range(rng.randint(1, 2))])
 
 
-BT_NAME = []  # set around show_py calls by cases()
+BT_NAME = {}  # grammar name -> backtick-quoted spelling; set around show_py calls by cases()
+# pairs chosen so that the sanitised aliases collide, are prefixes of one another, or are identifier-valid
+# names that occur inside other identifiers of the fragment (`o` in np.log, `a` in a call name, ...)
+BT_CHOICES = [
+    {"a": "a b"}, {"a": "x+y"}, {"a": "2nd"}, {"a": "it's"}, {"a": "p)q"}, {"a": "é"},
+    {"a": "a"}, {"a": "o"}, {"a": "g"}, {"a": "f"}, {"a": "n"}, {"b": "x"}, {"a": "l", "b": "p"},
+    {"a": "a b", "b": "a|b"}, {"a": "a-b", "b": "a-"}, {"a": "a-", "b": "a-b"}, {"a": "a_", "b": "a-"},
+    {"a": "a b", "b": "a_b"}, {"a": "a-1", "b": "a-"}, {"a": "x1", "b": "x"}, {"a": "log", "b": "np"},
+]
 
 
 def show_py(e, rng):
@@ -63,14 +72,13 @@ def show_py(e, rng):
     k = e[0]
     if k == "n":
         # optionally one name of the fragment is a backtick-quoted (non-identifier) column name
-        return BT_NAME[0] if (BT_NAME and e[1] == "a") else e[1]
+        return ("`" + BT_NAME[e[1]] + "`") if e[1] in BT_NAME else e[1]
     if k == "c":
         return repr(e[1])
     if k == "s":
         s = e[1]
-        if rng.random() < 0.5 and "'" not in s:
-            return "'" + s.replace("\\", "\\\\") + "'"
-        return '"' + s.replace("\\", "\\\\").replace('"', '\\"') + '"'
+        q = rng.choice("'\"")  # either quote style; the style's own quote character is backslash-escaped
+        return q + s.replace("\\", "\\\\").replace(q, "\\" + q) + q
     if k == "call":
         args = (w() + "," + w()).join(show_py(a, rng) for a in e[2])
         return e[1] + "(" + w() + args + w() + ")"
@@ -109,8 +117,10 @@ def cases(rng, tier):
         elif r < 0.85:
             e = gen_pyexpr(rng, 3)
             BT_NAME.clear()
-            if rng.random() < 0.35:
-                BT_NAME.append("`" + rng.choice(["a b", "x+y", "2nd", "it's", "p)q", "é"]) + "`")
+            if rng.random() < 0.5:
+                BT_NAME.update(rng.choice(BT_CHOICES))
+                if rng.random() < 0.5:  # make sure the quoted names occur, next to look-alike identifiers
+                    e = ("call", rng.choice(["g", "np.log", "f"]), [("n", "a"), e, ("n", "b"), ("n", "a")])
             a, b = show_py(e, rng), show_py(e, rng)
             BT_NAME.clear()
             form = rng.choice(["call", "brace"])
@@ -219,7 +229,59 @@ def oracle(c, o):
             return f"fragments differing only in formatting denote different formulas: {c['s']!r} -> {o['f1']} vs {c['s2']!r} -> {o['f2']}"
         if "error" in o["f1"]:
             return f"valid Python fragment rejected: {o['f1']}"
+        want_ast = _frag_ast(c["frag"])
+        if want_ast is not None:
+            got = [f[0] for f in _all_factors(o["f1"]["formula"], []) if f[1] == "python"]
+            if len(got) != 1:
+                return f"expected exactly one Python factor for {c['s']!r}, got {got}"
+            expr = got[0]
+            if c["form"] == "brace":
+                want_ast = _frag_ast("(" + c["frag"] + ")")
+                expr = "(" + expr + ")"
+            if _frag_ast(expr) != want_ast:
+                return (f"the factor {got[0]!r} is not the Python expression written as {c['frag']!r} "
+                        f"(same code over the same back-quoted names)")
     return None
+
+
+def _frag_ast(frag):
+    """AST dump of a fragment in which every back-quoted name (outside string literals) is replaced by a
+    placeholder carrying the name; None when the fragment is outside what this reader handles"""
+    import ast as _ast
+
+    out, names, i, n = [], [], 0, len(frag)
+    while i < n:
+        ch = frag[i]
+        if ch in "'\"":
+            j = i + 1
+            while j < n and frag[j] != ch:
+                j += 2 if frag[j] == "\\" else 1
+            out.append(frag[i:j + 1])
+            i = j + 1
+        elif ch == "`":
+            j = frag.find("`", i + 1)
+            if j < 0:
+                return None
+            names.append(frag[i + 1:j])
+            out.append(f" __bt{len(names) - 1}__ ")
+            i = j + 1
+        else:
+            out.append(ch)
+            i += 1
+    if any(q in nm for nm in names for q in "'\""):
+        return None  # quote characters inside a quoted name: known finding C15-F3 territory
+    try:
+        tree = _ast.parse("".join(out).strip(), mode="eval")
+    except SyntaxError:
+        return None
+    # identify placeholders by the NAME they stand for, not by their position
+    class R(_ast.NodeTransformer):
+        def visit_Name(self, node):
+            if node.id.startswith("__bt") and node.id.endswith("__"):
+                k = int(node.id[4:-2])
+                return _ast.copy_location(_ast.Name(id="`" + names[k] + "`", ctx=node.ctx), node)
+            return node
+    return _ast.dump(R().visit(tree))
 
 
 def classify(c, o, why):
@@ -239,7 +301,7 @@ def classify(c, o, why):
 
 
 LEVEL_TEXT = (
-    'Proof (partial): Lean theorems about the executable model of tokenize() show for ALL bodies (any characters of any class except backtick/backslash) that a backtick-quoted name is one name token with the body verbatim and the documented span, that unquoted whitespace is a no-op after an operator/between tokens and otherwise only ends the pending token, and that for EVERY string that tokenises all spans lie inside the string, are ordered and do not overlap (loop invariant). Whole-string whitespace insensitivity IS a theorem (ws_insensitive: one unquoted whitespace character inserted at any point where no quote is open and the pending token is empty or an operator changes no token text/kind and no accept/reject outcome; positions never influence texts/kinds). That a span slices back to its text, brace/call verbatim quoting and reformatting-invariance of Python fragments are NOT theorems (FULL (unproved) in Props/C15.lean): they are covered by the correspondence of the model against the real tokenizer (texts, kinds and spans) and by metamorphic oracles on the real code.'
+    'Proof (partial): Lean theorems about the executable model of tokenize() show for ALL bodies (any characters of any class except backtick/backslash) that a backtick-quoted name is one name token with the body verbatim and the documented span, that unquoted whitespace is a no-op after an operator/between tokens and otherwise only ends the pending token, and that for EVERY string that tokenises all spans lie inside the string, are ordered and do not overlap (loop invariant). Whole-string whitespace insensitivity IS a theorem (ws_insensitive: one unquoted whitespace character inserted at any point where no quote is open and the pending token is empty or an operator changes no token text/kind and no accept/reject outcome; positions never influence texts/kinds). Also theorems for EVERY string: span_delimits_text (the text of each token is a subsequence of the source characters inside its span, ends with the character at its stop and starts at its start, or just after the quote character that opened it; the only characters skipped are the opening quote and whitespace inside an operator run), tokens_have_kinds (every emitted token has a kind and a non-empty text), and quoted_verbatim/brace_verbatim (a brace-, backtick- or percent-quoted body that leaves the quote stack as it found it is ONE token with the body verbatim; the stack discipline is a small executable function of the body). Call-style verbatim quoting at top level and reformatting-invariance of Python fragments (ast.parse/unparse of CPython) are NOT theorems: they are covered by the correspondence of the model against the real tokenizer (texts, kinds and spans) and by oracles on the real code (same formula for two formattings; the normalised factor is the same Python expression over the same back-quoted names).'
 )
 LEVEL_NOTE = (
     "Trusted: Lean kernel + the three standard axioms; the hand model of tokenize()/Token validated token-by-token incl. spans on every run; Python's re classes enter as data; ast.unparse is CPython's."
